@@ -401,6 +401,10 @@ def make_variants(rng: numpy.random.Generator, st: dict, p_last_gpa: float, p_la
         dp = (p_last_gpa - st["P_MIN"]) / (ntv - 1.5)
         if dp > 0:
             out.append({"expect": "reject", "kind": "sample_stride", "settings": {"DELTA_P": dp, "DELTA_P_SAMPLE": ks[0] * dp}})
+    # a DESCENDING requested grid (DELTA_P < 0 is schema-valid): its highest pressure is its FIRST entry; starting above the reachable
+    # pressure it overshoots and must be rejected like any other overshooting grid
+    top_d = float(rng.uniform(1.05, 1.5)) * p_last_gpa
+    out.append({"expect": "reject", "kind": "descending", "settings": {"P_MIN": top_d, "DELTA_P": -(top_d - max(st["P_MIN"], 0.0)) / (ntv - 1)}})
     inside = float(rng.uniform(0.85, 0.995))
     out.append({"expect": "accept", "kind": "DELTA_P", "settings": {"DELTA_P": (inside * p_last_gpa - st["P_MIN"]) / (ntv - 1)}})
     return out
